@@ -19,6 +19,7 @@ type Thread struct {
 	Result    interface{}
 	Panic     interface{}
 	locks     int
+	xlocks    int // exclusive (write) locks only
 	points    int
 }
 
@@ -115,9 +116,15 @@ func (s *Sched) Sync(op string, key interface{}) {
 	}
 	if t := s.cur; t != nil {
 		switch op {
-		case "lock", "rlock":
+		case "lock":
 			t.locks++
-		case "unlock", "runlock":
+			t.xlocks++
+		case "rlock":
+			t.locks++
+		case "unlock":
+			t.locks--
+			t.xlocks--
+		case "runlock":
 			t.locks--
 		}
 	}
@@ -129,6 +136,15 @@ func (s *Sched) LocksHeld() int {
 		return 0
 	}
 	return s.cur.locks
+}
+
+// ExclusiveLocksHeld reports the number of exclusive shim locks (Mutex.Lock, RWMutex.Lock, Once) the running
+// thread holds; a read lock does not license a write.
+func (s *Sched) ExclusiveLocksHeld() int {
+	if s.cur == nil {
+		return 0
+	}
+	return s.cur.xlocks
 }
 
 // Go is the VerifGo hook: spawn a new thread running fn.
